@@ -657,6 +657,11 @@ pub fn enabled(m: &Model, op: &Op) -> bool {
     }
 }
 
+/// the last path component is "." or ".."
+pub fn dot_target(path: &str) -> bool {
+    matches!(model::split(path).last(), Some(&".") | Some(&".."))
+}
+
 fn name_units(name: &str) -> usize {
     name.encode_utf16().count()
 }
@@ -741,6 +746,15 @@ pub fn model_step(m: &mut Model, op: &Op, res: &Res, ticks: (u32, u32), atime: b
                     Resolve::ThroughFile => through(&mut ex),
                 }
             }
+        }
+        Op::Remove { base, path } if dot_target(path) => {
+            // "." / ".." as the entry to remove: the tree model does not define dot components; the one thing every
+            // reading agrees on is that a directory's own dot entries cannot be removed (refused with either kind)
+            let _ = base;
+            ex.must = vec![ErrKind::InvalidInput, ErrKind::NotFound];
+        }
+        Op::Rename { src, .. } if dot_target(src) => {
+            ex.must = vec![ErrKind::InvalidInput, ErrKind::NotFound];
         }
         Op::Remove { base, path } => {
             let b = base_nid(m, *base).unwrap();
